@@ -166,21 +166,28 @@ let print_outcome (o : outcome) : string =
 let () =
   let backend = if Array.length Sys.argv > 1 && Sys.argv.(1) = "s2" then 2 else 1 in
   let ic = if Array.length Sys.argv > 2 then open_in Sys.argv.(2) else stdin in
+  let with_str = Array.length Sys.argv > 3 && Sys.argv.(3) = "str" in
   (try
      while true do
        let line = input_line ic in
        if String.length line > 5 && String.sub line 0 5 = "CASE " then print_endline line
        else if String.length line > 4 && String.sub line 0 4 = "RAW " then begin
          let sx = String.sub line 4 (String.length line - 4) in
+         let mstr = ref None in
          let out =
            try
              let x = input_of (parse_sexp sx) in
-             print_outcome (if backend = 2 then derive2 x else derive1 x)
+             let o = if backend = 2 then derive2 x else derive1 x in
+             (match o with
+              | OOk ts when with_str -> let b = Buffer.create 1024 in esc b (toks_to_string ts); mstr := Some (Buffer.contents b)
+              | _ -> ());
+             print_outcome o
            with
            | Failure m -> "(driver-error \"" ^ m ^ "\")"
            | Stack_overflow -> "(driver-error \"stack overflow\")"
          in
-         print_endline ("MODEL " ^ out)
+         print_endline ("MODEL " ^ out);
+         (match !mstr with Some s -> print_endline ("MSTR " ^ s) | None -> ())
        end
      done
    with End_of_file -> ())
